@@ -1,3 +1,4 @@
+import Pcore.Model.CtorFl
 /-!
 # Model of function dispatch and of `new` (property C16)
 
@@ -354,6 +355,9 @@ inductive Ty where
   | enum (vs : List String)
   | enumci (vs : List String)     -- case-insensitive Enum (values kept in lower case)
   | intPat                        -- Pattern[/IntegerPattern/]
+  | floatPat                      -- Pattern[/FloatPattern/]
+  | float (lo hi : Int)           -- Float[lo,hi]: the stored bounds as keys (Model/CtorFl.lean); default = ∓maxFiniteKey
+  | numeric
   | arr (e : Ty) (lo : Nat) (hi : Option Nat)
   | tuple (ts : List Ty)                                   -- Tuple[T1,…,Tn] without a size: exactly n elements
   | hash (k v : Ty) (lo : Nat) (hi : Option Nat)
@@ -367,6 +371,7 @@ inductive Val where
   | int (n : Int)
   | str (s : String)
   | bool (b : Bool)
+  | float (bits : Nat)                                     -- a float64 as its IEEE bits (Model/CtorFl.lean)
   | undef
   | default
   | arr (vs : List Val)
@@ -404,6 +409,41 @@ def intPattern (cs : List Char) : Bool :=
     | [] => cs
   intBody (cs.dropWhile isSpace)
 
+/-- `(?:0|[1-9]\d*)(?:\.\d+)?(?:[eE]-?\d+)?` up to the end (`FloatDec`) -/
+def floatDec (cs : List Char) : Bool :=
+  let ip := cs.takeWhile isDigit
+  let r1 := cs.dropWhile isDigit
+  (ip == ['0'] || (match ip with | c :: _ => c != '0' | [] => false)) &&
+  (let r2 : Option (List Char) := match r1 with
+      | '.' :: r => let fp := r.takeWhile isDigit
+                    if fp.isEmpty then none else some (r.dropWhile isDigit)
+      | r => some r
+   match r2 with
+   | none => false
+   | some [] => true
+   | some (e :: r) =>
+     if e = 'e' || e = 'E' then
+       let ds := match r with | '-' :: q => q | q => q
+       !ds.isEmpty && ds.all isDigit
+     else false)
+
+/-- the alternatives of `types.FloatPattern` after the sign prefix: `FloatDec | 0[xX]hex+ | 0[0-7]+ | 0[bB][01]+` -/
+def floatBody (cs : List Char) : Bool :=
+  floatDec cs ||
+  (match cs with
+   | '0' :: x :: rest =>
+     ((x = 'x' || x = 'X') && !rest.isEmpty && rest.all isHex) ||
+     ((x = 'b' || x = 'B') && !rest.isEmpty && rest.all isBin) ||
+     (x :: rest).all isOct
+   | _ => false)
+
+/-- `types.FloatPattern` = `\A[+-]?\s*(?:…)\z` -/
+def floatPattern (cs : List Char) : Bool :=
+  let cs := match cs with
+    | c :: rest => if c = '+' || c = '-' then rest else cs
+    | [] => cs
+  floatBody (cs.dropWhile isSpace)
+
 /-- `Hash.Get(stringValue(name))` as far as "found or not" goes (with equal keys the found *value* may differ from Go's,
     which answers the last one; `StructType.IsInstance` is false for such a hash either way: `matched < Len()`) -/
 def lookupKey (name : String) : List (Val × Val) → Option Val
@@ -414,6 +454,7 @@ def lookupKey (name : String) : List (Val × Val) → Option Val
 
 mutual
 /-- `px.IsInstance` on the alphabet: IntegerType.IsInstance (bounds), scStringType.IsInstance (character count),
+    FloatType.IsInstance (a float within the effective bounds; never NaN), NumericType.IsInstance (an integer or a float),
     EnumType.IsInstance (case-sensitive member; no values = any string), ArrayType (every element), VariantType (some
     member), OptionalType (undef or the contained type), Any, Undef, Boolean, Default, unresolved TypeReference (nothing),
     TupleType without size, HashType (size, every key and value), StructType (every member found or optional, its value an
@@ -426,6 +467,9 @@ def inst : Ty → Val → Bool
   | .enum vs, v => match v with | .str s => vs.isEmpty || vs.contains s | _ => false
   | .enumci vs, v => match v with | .str s => vs.contains (lowerAscii s) | _ => false
   | .intPat, v => match v with | .str s => intPattern s.toList | _ => false
+  | .floatPat, v => match v with | .str s => floatPattern s.toList | _ => false
+  | .float lo hi, v => match v with | .float b => F64.inRange lo hi b | _ => false
+  | .numeric, v => match v with | .int _ => true | .float _ => true | _ => false
   | .arr e lo hi, v => match v with
     | .arr vs => decide (lo ≤ vs.length) && leMax vs.length hi && vs.all (fun x => inst e x)
     | _ => false
